@@ -222,7 +222,31 @@ func (cs *ContractSet) LoadContractFile(path, pkgPath string, trusted bool) erro
 		case "func", "iface", "functype", "trusted":
 			cur = &Contract{Kind: rc.kw, PkgPath: pkgPath, Loops: map[int]*LoopSpec{}, File: path, Line: rc.line, Trusted: trusted || rc.kw == "trusted"}
 			target := rc.text
-			if rc.kw != "func" {
+			quoted := false
+			if rc.kw != "func" && strings.HasPrefix(target, "\"") {
+				// functype "func() string" (p1, p2) r1
+				if j := strings.Index(target[1:], "\""); j >= 0 {
+					rest := strings.TrimSpace(target[j+2:])
+					target = target[1 : j+1]
+					quoted = true
+					if strings.HasPrefix(rest, "(") {
+						if k := strings.Index(rest, ")"); k >= 0 {
+							for _, n := range strings.Split(rest[1:k], ",") {
+								if n = strings.TrimSpace(n); n != "" {
+									cur.ParamNames = append(cur.ParamNames, n)
+								}
+							}
+							rest = rest[k+1:]
+						}
+					}
+					for _, n := range strings.Split(rest, ",") {
+						if n = strings.TrimSpace(n); n != "" {
+							cur.ResNames = append(cur.ResNames, n)
+						}
+					}
+				}
+			}
+			if rc.kw != "func" && !quoted {
 				// header: name(p1, p2) r1, r2   (the name may itself start with "(*T)")
 				if j := strings.LastIndex(target, "("); j > 0 {
 					k := strings.Index(target[j:], ")")
@@ -249,7 +273,7 @@ func (cs *ContractSet) LoadContractFile(path, pkgPath string, trusted bool) erro
 				key = pkgPath + "::" + target
 			}
 			if rc.kw == "functype" {
-				if !strings.Contains(target, ".") && pkgPath != "" {
+				if !strings.Contains(target, ".") && pkgPath != "" && !quoted {
 					target = pkgPath[strings.LastIndex(pkgPath, "/")+1:] + "." + target
 					cur.Target = target
 				}
